@@ -50,7 +50,7 @@ def spec_text(spec):
     if t == 'offset':
         return '%%offset(%s)' % spec[1]
     if t == 'position':
-        return '%%position(%s, %d)' % (spec[1], spec[2])
+        return '%%position(%s, %s)' % (spec[1], spec[3] if len(spec) > 3 else '%d' % spec[2])     # optional 4th element: the base written as an expression
     if t == 'add':
         return '%s + %d' % (spec_text(spec[1]), spec[2])
     if t == 'rsub':
